@@ -111,9 +111,30 @@ pub fn repeated_else(els: &[El]) -> bool {
     })
 }
 
-/// the elements cannot be the rest of a balanced script: a stray OP_ELSE / OP_ENDIF at this level, or a repeated OP_ELSE below
+/// the elements cannot be the rest of a balanced script. Read as the flat opcode sequence they serialise to, the way a
+/// node reads what follows an OP_RETURN that stood inside a branch: every OP_ELSE / OP_ENDIF needs an open conditional,
+/// a conditional has at most one OP_ELSE, and every conditional is closed at the end. (An OP_RETURN met on the way is
+/// not executed and ends nothing.)
 pub fn unbalanced(els: &[El]) -> bool {
-    els.iter().any(|e| matches!(e, El::Op(103) | El::Op(104))) || repeated_else(els)
+    let mut open: Vec<bool> = vec![];
+    for t in crate::gen::script::to_tokens(els) {
+        if let crate::refimpl::script_tok::Tok::Op(b) = t {
+            match b {
+                99..=102 => open.push(false),
+                103 => match open.last_mut() {
+                    Some(else_seen) if !*else_seen => *else_seen = true,
+                    _ => return true,
+                },
+                104 => {
+                    if open.pop().is_none() {
+                        return true;
+                    }
+                }
+                _ => {}
+            }
+        }
+    }
+    !open.is_empty()
 }
 
 /// opcodes this model asserts when they appear as `El::Op` (everything else is Unmodelled).
